@@ -55,7 +55,9 @@ def lower(v, memo=None):
         if v.kind == 'socket':
             data = lower(v.fields['data'], memo)
             r = FakeSocket(bytes(x % 256 for x in data), lower(v.fields['pos'], memo),
-                           lower(v.fields.get('sent', SList()), memo))
+                           lower(v.fields.get('sent', SList()), memo),
+                           closed=bool(lower(v.fields.get('closed', False), memo)),
+                           connected=bool(lower(v.fields.get('connected', True), memo)))
             memo[v.oid] = r
             return r
         if v.kind == 'queue':
@@ -212,11 +214,18 @@ def describe_native(x, depth=0):
 # native evaluation of a contract around the real function
 
 
-def separated(root):
+def separated(root, declared=None):
     """Native counterpart of calls.separation_ok: no mutable container below root is reachable
     along two different access paths."""
     seen = set()
     stack = [root]
+    if declared and hasattr(root, '__dict__'):
+        # sharing that the class shape itself declares (Alias fields): one access path is dropped
+        d = vars(root)
+        skip = {k for k, o in declared.items() if k in d and o in d and d[k] is d[o]}
+        if skip:
+            seen.add(id(root))
+            stack = [x for k, x in d.items() if k not in skip]
     while stack:
         v = stack.pop()
         if v is None or isinstance(v, (bool, int, float, str, bytes, enum.Enum, type, frozenset)):
@@ -282,10 +291,12 @@ def native_check(c, registry, args):
     for gk, gv in args.items():
         if gk.startswith('ghost_'):
             ns_old[gk] = gv
+    from .ext import native_world
     try:
-        result = fn(*[args[k] for k in order])
-        if inspect.isgeneratorfunction(fn):
-            result = list(result)
+        with native_world():
+            result = fn(*[args[k] for k in order])
+            if inspect.isgeneratorfunction(fn):
+                result = list(result)
         outcome = 'return'
     except BaseException as e:  # noqa
         outcome = e
@@ -341,8 +352,14 @@ def native_check(c, registry, args):
         if cc is not None and cc.inv is not None and c.check_inv and 'self' in args:
             if not cc.inv(args['self']):
                 failures.append((f'{short}/inv', 'class invariant broken'))
+        _decl = None
+        if cc is not None and cc.shape is not None:
+            from .dsl import Alias as _Alias
+            from .calls import _obj_shape
+            _decl = {k: s_.other for k, s_ in getattr(_obj_shape(cc.shape), 'fields', {}).items()
+                     if isinstance(s_, _Alias)}
         if cc is not None and cc.shape is not None and 'self' in args and \
-                not separated(args['self']):
+                not separated(args['self'], _decl):
             failures.append((f'{short}/separation',
                              'two parts of the object share one mutable container'))
     else:
